@@ -50,6 +50,44 @@ def _skolemize(g):
     return g, []
 
 
+def _int_consts(exprs, limit=4000):
+    seen, out, todo, n = set(), {}, list(exprs), 0
+    while todo and n < limit:
+        x = todo.pop()
+        if x.get_id() in seen:
+            continue
+        seen.add(x.get_id())
+        n += 1
+        if z3.is_const(x) and x.decl().kind() == z3.Z3_OP_UNINTERPRETED and x.sort() == z3.IntSort():
+            out[str(x)] = x
+        elif z3.is_app(x):
+            todo.extend(x.children())
+        elif z3.is_quantifier(x):
+            todo.append(x.body())
+    return out
+
+
+def _instantiate_exists(g, pc):
+    """exists q. P(q) as a goal -> P(c1) or ... or P(cn) or exists q. P(q) for witness candidates c
+    taken from the path condition (results of max/min, loop indices).  Equivalent, but gives the
+    solver the obvious witnesses without quantifier instantiation."""
+    if z3.is_quantifier(g) and g.is_exists() and g.num_vars() == 1 and g.var_sort(0) == z3.IntSort():
+        cands = [c for name, c in sorted(_int_consts(pc).items())
+                 if name.split("!")[0] in ("max", "min") or name.startswith("_i_")]
+        inst = []
+        for c in cands[:6]:
+            inst.append(z3.substitute_vars(g.body(), c))
+            if str(c).startswith("_i_"):
+                inst.append(z3.substitute_vars(g.body(), c - 1))
+        return z3.Or(*inst, g) if inst else g
+    if z3.is_implies(g):
+        a, b = g.children()
+        return z3.Implies(a, _instantiate_exists(b, pc))
+    if z3.is_and(g):
+        return z3.And(*[_instantiate_exists(c, pc) for c in g.children()])
+    return g
+
+
 class Engine(ExprMixin, CallMixin, ContractMixin, BuiltinMixin, StmtMixin, LoopMixin, CompMixin):
     def __init__(self, reg=None, repo=None, ext_exc=None, feas_timeout_ms=300, max_steps=200000):
         self.reg = reg or REG
@@ -95,6 +133,7 @@ class Engine(ExprMixin, CallMixin, ContractMixin, BuiltinMixin, StmtMixin, LoopM
         g = sym.lsimp(goal)
         oid = f"{self.root_spec.target}:{kind}[{label}]"
         pc = list(st.pc)
+        g = _instantiate_exists(g, pc)
         g, skolems = _skolemize(g)
         if skolems:
             # engine-side instantiation: every universally quantified fact of the path condition is
